@@ -228,40 +228,32 @@ theorem ms_rate_sum (l : MsLayout) (hl : MsLayoutOk l) (fs fsz nch br : Int)
     obtain ⟨R, -, -, -, s1, s2, -⟩ := msAmbi_sum l hl fs fsz nch br ha (by omega) (by omega) q1 q2 hn1 hn2 hbr
     exact ⟨s1, s2⟩
 
-/-- **No 32-bit overflow** in `rate_allocation` and in the clamp arithmetic of :882-886 — for every layout with
-    `nb_channels = nb_streams + nb_coupled` (everything the surround / ambisonics / projection create functions make), and
-    more generally whenever a layout with a coupled or LFE stream has at most 13 input channels per coded channel. -/
+/-- **No 32-bit overflow** in `rate_allocation` and in the clamp arithmetic of :882-886 — for EVERY layout
+    `opus_multistream_encoder_init_impl` accepts (`nb_streams + nb_coupled ≤ nb_channels ≤ 255`, so also explicit mappings
+    with muted / shared input channels, where the ctl accepts up to 300000·nb_channels b/s), every legal frame size and
+    every bit-rate setting.  `msFits` follows the source as of /repo 69d56905: the products `channel_rate*coupled_ratio`
+    and `channel_rate*lfe_ratio` (:729/:733) are 64-bit, and what is cast back to `opus_int32` fits because
+    `2·channel_rate ≤ bitrate ≤ 76500000` whenever there is a coupled stream and `channel_rate ≥ −4089000`. -/
 theorem ms_rate_no_overflow (l : MsLayout) (hl : MsLayoutOk l) (fs fsz nch br : Int)
     (hfs : fs = 8000 ∨ fs = 12000 ∨ fs = 16000 ∨ fs = 24000 ∨ fs = 48000) (hleg : legalFrame fs fsz = true)
-    (hn1 : l.nbStreams + l.nbCoupled ≤ nch) (hn2 : nch ≤ 255) (hbr : MsBrOk nch br)
-    (hcap : (0 < l.nbCoupled ∨ l.lfeStream ≠ -1) → nch ≤ 13 * (l.nbStreams + l.nbCoupled - msNbLfe l)) :
+    (hn1 : l.nbStreams + l.nbCoupled ≤ nch) (hn2 : nch ≤ 255) (hbr : MsBrOk nch br) :
     msFits l fs fsz br = true ∧ fitsI32 (3 * msRateSum l fs fsz br) = true ∧ fitsI32 (3 * br) = true ∧
     0 < 3 * 8 * fs / fsz := by
   obtain ⟨c1, c2, -, c4⟩ := msClamp_fits l hl fs fsz nch br hfs hleg hn1 hn2 hbr
-  refine ⟨?_, c1, c2, c4⟩
-  obtain ⟨-, -, -, -, -, q1, q2⟩ := legal_rate fs fsz hfs hleg
-  by_cases ha : l.ambisonics = true
-  · exact msFits_ambi l hl fs fsz nch br ha (by omega) (by omega) q1 q2 hn1 hn2 hbr
-  · have ha' : l.ambisonics = false := by cases h : l.ambisonics <;> simp_all
-    exact msFits_sur l fs fsz nch br (surIn_of l hl fs fsz nch br hfs hleg hn1 hn2 hbr) ha' hcap
+  exact ⟨msFits_all l hl fs fsz nch br hfs hleg hn1 hn2 hbr, c1, c2, c4⟩
 
-/-- … the side condition holds by itself when the input channels are exactly the coded channels. -/
-theorem ms_rate_no_overflow_standard (l : MsLayout) (hl : MsLayoutOk l) (fs fsz br : Int)
-    (hfs : fs = 8000 ∨ fs = 12000 ∨ fs = 16000 ∨ fs = 24000 ∨ fs = 48000) (hleg : legalFrame fs fsz = true)
-    (hbr : MsBrOk (l.nbStreams + l.nbCoupled) br) : msFits l fs fsz br = true :=
-  msFits_standard l hl fs fsz br hfs hleg hbr
-
-/-- … and it is NECESSARY: a layout `opus_multistream_encoder_create` accepts (30 input channels, 28 of them muted,
-    one coupled stream) with a bit-rate its ctl accepts (9 Mb/s ≤ 300000·30) makes `channel_rate*coupled_ratio` of
-    :729 overflow `int` (4488000·512).  Reproduced on the real library: UBSan "signed integer overflow" at
-    opus_multistream_encoder.c:729; without the sanitizer the stream is given 4000 b/s instead of the 600000 b/s its
-    encoder would accept.  FINDING reported to the coordinator (not a violation of C05's size clauses). -/
-theorem ms_rate_overflow_generic :
+/-- The pre-fix form (before /repo 69d56905) evaluated `channel_rate*coupled_ratio` in `int`: for a layout
+    `opus_multistream_encoder_create` accepts (30 input channels, 28 of them muted, one coupled stream) and a bit-rate
+    its ctl accepts (9 Mb/s ≤ 300000·30), 20 ms at 48 kHz, `channel_rate = 4488000` and the 32-bit product
+    4488000·512 = 2297856000 > INT_MAX (UBSan trap; without the sanitizer the stream got 4000 b/s).  With the 64-bit
+    product the same case fits and the stream gets 8976000 + offsets (regression case 1 of corpus/C05/msrate_cases.txt). -/
+example :
     msCtlBitrate 30 9000000 = some 9000000 ∧
-    MsLayoutOk { nbStreams := 1, nbCoupled := 1, lfeStream := -1, ambisonics := false } ∧
     (msSurVals { nbStreams := 1, nbCoupled := 1, lfeStream := -1, ambisonics := false } 48000 960 9000000).channelRate = 4488000 ∧
-    msFits { nbStreams := 1, nbCoupled := 1, lfeStream := -1, ambisonics := false } 48000 960 9000000 = false :=
-  msFits_counterexample
+    fitsI32 ((msSurVals { nbStreams := 1, nbCoupled := 1, lfeStream := -1, ambisonics := false } 48000 960 9000000).channelRate * 512) = false ∧
+    msFits { nbStreams := 1, nbCoupled := 1, lfeStream := -1, ambisonics := false } 48000 960 9000000 = true ∧
+    msRates { nbStreams := 1, nbCoupled := 1, lfeStream := -1, ambisonics := false } 48000 960 9000000 = [9000000] := by
+  decide +kernel
 
 /-- **`ms_encode_ret_le_out` with the real allocation and no hypothesis on it.**  For every layout, legal frame size,
     VBR / CBR, and every bit-rate setting incl. OPUS_AUTO (where the CBR clamp `3*rate_sum/(3*8*Fs/frame_size)` of :882
